@@ -84,3 +84,24 @@ Definition dbg_decode (d : adir) : list Z :=
   | Some (t, b, _, sh, elems) => [numtype_code t; byteorder_code b; zlen sh] ++ sh ++ concat elems
   | None => [-1]
   end.
+
+(* C17: the sequence of distinct on-disk states observed between executed source lines
+   while one operation runs must be the model's trace (Crash.trace_states) *)
+From Darr Require Import Crash.
+Fixpoint dedup (l : list (list Z)) : list (list Z) :=
+  match l with
+  | a :: ((b :: _) as t) => if zlist_eqb a b then dedup t else a :: dedup t
+  | _ => l
+  end.
+Definition zll_eqb := list_eqb zlist_eqb.
+Definition chk_trace (c : res world) (o : aop) (obs : list (list Z)) : bool :=
+  match c with
+  | Ok w => let '(_, _, es) := exec w o in
+            zll_eqb (dedup (map dir_flat (snd w :: trace_states (snd w) es))) obs
+  | Err _ => false
+  end.
+Definition dbg_trace (c : res world) (o : aop) : list (list Z) :=
+  match c with
+  | Ok w => let '(_, _, es) := exec w o in dedup (map dir_flat (snd w :: trace_states (snd w) es))
+  | Err _ => []
+  end.
